@@ -153,7 +153,7 @@ Theorem race_request_uri_response_types_live : forall rt rotation, In rt ru_resp
 Proof. exact uri_live_lemma. Qed.
 Print Assumptions race_request_uri_response_types_live.
 
-Theorem race_request_uri_response_types_count : forall rt rotation k sched, In rt ru_resp_types -> uri_bound rt k ->
+Theorem race_request_uri_response_types_count : forall rt rotation k sched, In rt ru_resp_types -> k = 2 ->
   let su := setup_of (scn_uri rt rotation) in
   In sched (race_schedules su k) ->
   successes su k sched = race_window_count su k sched /\
@@ -165,50 +165,33 @@ Theorem race_request_uri_response_types_count : forall rt rotation k sched, In r
   (forall i j, i < k -> j < k -> occ_pos i (consume_pos su) sched 0 < occ_pos j (lookup_pos su) sched 0 ->
      nth j (outcomes su k sched) false = false).
 Proof.
-  intros rt rotation k sched Hrt Hk su Hin.
-  destruct (uri_facts_all rt rotation k sched Hrt Hk Hin) as [A B C D E F G]. repeat split; assumption.
+  intros rt rotation k sched Hrt -> su Hin.
+  destruct (uri_facts_all rt rotation sched Hrt Hin) as [A B C D E F G]. repeat split; assumption.
 Qed.
 Print Assumptions race_request_uri_response_types_count.
 
-Theorem race_request_uri_response_types_classification : forall rt rotation k sched, In rt ru_resp_types -> uri_bound rt k ->
+Theorem race_request_uri_response_types_classification : forall rt rotation k sched, In rt ru_resp_types -> k = 2 ->
   let su := setup_of (scn_uri rt rotation) in
   In sched (race_schedules su k) -> (2 <= successes su k sched <-> race_overlaps su k sched = true).
 Proof.
-  intros rt rotation k sched Hrt Hk su Hin. apply classification_of_count.
-  exact (uf_count _ _ _ _ (uri_facts_all rt rotation k sched Hrt Hk Hin)).
+  intros rt rotation k sched Hrt -> su Hin. apply classification_of_count.
+  exact (uf_count _ _ _ _ (uri_facts_all rt rotation sched Hrt Hin)).
 Qed.
 Print Assumptions race_request_uri_response_types_classification.
 
-Theorem race_request_uri_response_types_serial : forall rt rotation k sched, In rt ru_resp_types -> uri_bound rt k ->
+Theorem race_request_uri_response_types_serial : forall rt rotation k sched, In rt ru_resp_types -> k = 2 ->
   let su := setup_of (scn_uri rt rotation) in
   In sched (race_schedules su k) -> race_overlaps su k sched = false -> successes su k sched <= 1.
 Proof.
-  intros rt rotation k sched Hrt Hk su Hin. apply at_most_one_of_count.
-  exact (uf_count _ _ _ _ (uri_facts_all rt rotation k sched Hrt Hk Hin)).
+  intros rt rotation k sched Hrt -> su Hin. apply at_most_one_of_count.
+  exact (uf_count _ _ _ _ (uri_facts_all rt rotation sched Hrt Hin)).
 Qed.
 Print Assumptions race_request_uri_response_types_serial.
 
-(* three requests, response types with `token` (five-call flows, 756756 interleavings - not swept): the 34650
-   interleavings in which the three read-only client lookups (each request's first call) come first and the
-   remaining calls are interleaved in EVERY way; same facts (PARTIAL for k = 3: the lemma that a leading client
-   lookup commutes with the other requests' calls is not proved; the harness samples the full set) *)
-Theorem race_request_uri_response_types_three_partial : forall rt rotation sched, In rt ru_resp_types -> ru_issues_token rt = true ->
-  let su := setup_of (scn_uri rt rotation) in
-  In sched (schedules_after_first_call su 3) ->
-  successes su 3 sched = race_window_count su 3 sched /\
-  tokens_obtained su 3 sched = successes su 3 sched /\ grants_written su 3 sched = successes su 3 sched /\
-  nodup_ids (token_values su 3 sched) = true /\
-  (2 <= successes su 3 sched <-> race_overlaps su 3 sched = true) /\
-  (forall i j, i < 3 -> j < 3 -> occ_pos i (consume_pos su) sched 0 < occ_pos j (lookup_pos su) sched 0 ->
-     nth j (outcomes su 3 sched) false = false).
-Proof.
-  intros rt rotation sched Hrt T su Hin.
-  destruct (uri_facts_three_token rt rotation sched Hrt T Hin) as [A B C D E F G].
-  rewrite T in B, C.
-  split; [exact A|]. split; [exact B|]. split; [exact C|]. split; [exact D|].
-  split; [exact (classification_of_count _ _ _ A)|exact G].
-Qed.
-Print Assumptions race_request_uri_response_types_three_partial.
+(* three requests: Proofs/C15UriThree.v (race_request_uri_three_hybrid: every interleaving of three requests for the
+   hybrid response type code id_token; race_request_uri_three_code_token_partial: code token, the interleavings that
+   follow the three client lookups) - compiled and kernel-checked with the development, but kept out of this file's
+   dependencies: coqchk re-runs every sweep an order of magnitude slower than the VM (thorough-tier budget). *)
 
 (* refuted: a schedule of two requests on which both win - with `token` in the response type both are handed an
    access token and two grant sessions are written; and the serial schedule gives exactly one winner *)
